@@ -29,10 +29,27 @@ from streams import base_for, tf_seconds  # noqa: E402
 NOIDX = 999999
 
 
+PRE = None      # form "candle_pre": the stream's Candle objects after another consumer converted them in place
+
+
+def preconvert(stream, base):
+    """the caller's Candle objects as they are after a Heikin-Ashi consumer WITHOUT a timeframe has worked
+    on them (such a consumer works on the caller's objects themselves): Heikin-Ashi values, the tag and
+    the saved original values travel with the objects to whoever is fed next"""
+    from hexital.candlesticks import CANDLESTICK_MAP
+    from hexital.core.candle_manager import CandleManager
+
+    objs = mk_candles(stream, base, 1, len(stream), "candle")
+    CandleManager(objs, candlestick_type=CANDLESTICK_MAP["HA"]())
+    return objs
+
+
 def mk_candles(stream, base, a, b, form="candle"):
     """fresh input objects for stream[a-1:b] (1-based inclusive)"""
     from hexital import Candle
 
+    if form == "candle_pre":
+        return copy.deepcopy(PRE[a - 1:b])
     out = []
     aware = None
     if form.startswith("aware"):
@@ -166,7 +183,7 @@ class Session:
         sc = self.sc
         form0 = sc.get("form", "candle")
         cands = mk_candles(sc["stream"], self.base, 1, k,
-                           form0 if form0.startswith("aware") or form0 == "candle_fold" else "candle")
+                           form0 if form0.startswith("aware") or form0 in ("candle_fold", "candle_pre") else "candle")
         self.cfgs = list(sc["inds"]) + list(sc.get("late", []))
         if sc["obj"] == "mgr":
             from hexital.core.candle_manager import CandleManager
@@ -225,6 +242,20 @@ class Session:
             self.live = {i: n for i, n in enumerate(names)}
             self.active = list(range(len(names)))
 
+    def _other_consumer(self):
+        """one feed, several consumers: an unrelated standalone indicator on a timeframe of its own that is
+        handed the very same Candle objects (`for c in feed: a.append(c); b.append(c)`).  A consumer with
+        a timeframe works on its own copies, so the observed object must not notice its neighbour."""
+        ft = self.sc.get("feed_to")
+        if not ft:
+            return None
+        if getattr(self, "_other", None) is None:
+            from hexital import SMA
+
+            self._other = SMA(period=3, timeframe=ft["tf"], candlestick_type="HA" if ft.get("ha") else None,
+                              timeframe_fill=bool(ft.get("fill")))
+        return self._other
+
     def indicator(self, i):
         if self.sc["obj"] == "ind":
             return self.obj
@@ -267,8 +298,13 @@ class Session:
             if len(data) == 1 and sc.get("single_unwrapped", True):
                 data = data[0]
             before = flat_args(data, self.base) if not form.startswith("candle") else []
+            other = self._other_consumer() if form == "candle" else None
+            if other is not None and sc["feed_to"]["order"] == "first":
+                other.append(data)
             try:
                 self.obj.append(data)
+                if other is not None and sc["feed_to"]["order"] == "after":
+                    other.append(data)
             finally:
                 self.args = (before, flat_args(data, self.base) if not form.startswith("candle") else [])
         elif op == "poke":
@@ -587,11 +623,13 @@ class _limit:
 
 
 def record(sc):
+    global PRE
     proj_mod.SUB = int(sc.get("sub", 1))
     try:
         return _record(sc)
     finally:
         proj_mod.SUB = 1
+        PRE = None
 
 
 def _record(sc):
@@ -606,6 +644,9 @@ def _record(sc):
 
         base = _dt.fromisoformat(sc["base"])
         assert all(86400 % tf_seconds(t) == 0 for t in tfs if t), "base day needs day-dividing timeframes"
+    if sc.get("form") == "candle_pre":
+        global PRE
+        PRE = preconvert(sc["stream"], base)
     ses = Session(sc, base)
     snaps = []          # per event: (event dict, {manager name: projected candles})
     consumed = 0
@@ -796,4 +837,5 @@ def _record(sc):
             c.mg = c.mg_index(mg_names)
             inds.append(dict(c.spec(ses.live.get(i, "")), act=1 if i < len(sc["inds"]) else 0))
     return {"id": sc["id"], "fam": sc["fam"], "mg": mg, "ind": inds, "mute": list(sc.get("mute", [])),
-            "raw": raw_json(sc["stream"], sc.get("readings")), "ev": events}
+            "raw": (proj_candles(PRE, base) if sc.get("form") == "candle_pre"
+                    else raw_json(sc["stream"], sc.get("readings"))), "ev": events}
